@@ -21,7 +21,12 @@
 //
 // "Syncing resumes": on every crash image of both families the real block
 // manager is constructed on the reopened stores and handed one valid next
-// header, which must become the new block tip.
+// header, which must become the new block tip. Before that, on a QUIET chain:
+// the real block manager is constructed AND STARTED on the reopened stores with
+// one honest scripted peer that serves filter headers and announces no block;
+// the filter-header chain must catch up with the block-header chain
+// (internal/c08/resume.go). Fixed scripts (c08.FixedScripts) make "block
+// headers 1..N written, filter headers 1..M<N written, crash" part of every run.
 package main
 
 import (
@@ -47,6 +52,7 @@ import (
 
 var (
 	childSeed = flag.Int64("child-script", -1, "child mode: script seed")
+	childKind = flag.Int("child-kind", 0, "child mode: script kind (c08.ScriptSeeded / ScriptFixed / ScriptLong)")
 	childOps  = flag.Int("child-ops", 0, "child mode: number of ops")
 	childKill = flag.Int("child-kill", -1, "child mode: SIGKILL self at this crash point (-1: run to the end, parent kills)")
 	childDir  = flag.String("child-dir", "", "child mode: data directory")
@@ -77,7 +83,7 @@ func child() {
 	}
 	r.KillAt = *childKill
 	prog, _ := os.OpenFile(filepath.Join(*childDir, "progress"), os.O_CREATE|os.O_WRONLY|os.O_APPEND|os.O_SYNC, 0o644)
-	for i, op := range c08.GenScript(*childSeed, *childOps) {
+	for i, op := range c08.ScriptFor(*childKind, *childSeed, *childOps) {
 		fmt.Fprintf(prog, "b%d\n", i)
 		if _, _, err := r.Exec(i, op); err != nil {
 			fmt.Fprintln(os.Stderr, "child exec:", err)
@@ -102,6 +108,14 @@ func importChild(seed int64) {
 	os.Exit(0)
 }
 
+// sjob is one script of family 1.
+type sjob struct {
+	kind  int // c08.ScriptSeeded / ScriptFixed / ScriptLong
+	seed  int64
+	nOps  int
+	label string
+}
+
 type pointRec struct {
 	op            c08.Op
 	pt            c08.Point
@@ -123,7 +137,7 @@ func main() {
 		fmt.Fprintf(os.Stderr, "start child: not killed (%d real points, err=%v panic=%q)\n", out.RealPoints, out.Err, out.Panic)
 		os.Exit(4)
 	}
-	r.Rule("FAMILY 1: seeded scripts (appends of 1-220 block headers, filter-header batches shaped like writeCFHeadersMsg, single and multi-header rollbacks, reorganisation composites = per block [filter rollback, block rollback], first new header alone, rest as batch) on the real stores sharing one bbolt DB; for EVERY primitive EVERY crash point is taken: before/after each flat-file write, torn at 1 byte / record-1 / one record of a longer batch / record+1 / total-1, after each file truncate, after each index commit; each crash image is opened like a restarting client and must (1) open, (2) hold exactly the entries from before or after the primitive in each store, (3) have whole-record files agreeing with the tips, (4) have by-hash lookups agreeing and no stale entries, (5) keep filter tip <= block tip, (6) let the REAL block manager be constructed on the reopened stores and commit one valid next header handed to its headers handler (tip advances by exactly that header), (7) accept appends that land at the right heights. " +
+	r.Rule("FAMILY 1: scripts = 2 FIXED ones whatever the seed (block headers 1..5 / filter headers 1..3, 4..5 / one more block / its filter header; and the same shape above one filter checkpoint interval: block tip 1203 with the filter store brought to 300, 1100, 1160, then 1207), seeded LONG ones (block tip 1000-2600 first, filter store brought to a drawn height within the last checkpoint interval / anywhere / onto a checkpoint, then as the seeded scripts) and seeded scripts (appends of 1-220 block headers, filter-header batches shaped like writeCFHeadersMsg, single and multi-header rollbacks, reorganisation composites = per block [filter rollback, block rollback], first new header alone, rest as batch) on the real stores sharing one bbolt DB; for EVERY primitive EVERY crash point is taken: before/after each flat-file write, torn at 1 byte / record-1 / one record of a longer batch / record+1 / total-1, after each file truncate, after each index commit; each crash image is opened like a restarting client and must (1) open, (2) hold exactly the entries from before or after the primitive in each store, (3) have whole-record files agreeing with the tips, (4) have by-hash lookups agreeing and no stale entries, (5) keep filter tip <= block tip, (5b) FILTER-HEADER SYNC RESUMES ON A QUIET CHAIN: the REAL block manager is constructed on the reopened stores and STARTED (block handler and filter-header handler goroutines) with one honest scripted peer behind its all-peers query and its batch dispatcher that answers getcfheaders / getcfcheckpt for exactly the image's block chain from the ground truth (filter hash = fixed function of the block hash, header = dsha256(hash || previous header) from the stored genesis filter header; the scripts write exactly these) and announces NO block: at the handler's own quiescent point (it announces, on its goroutine, that it goes to sleep until new block headers arrive) the filter-header store must have reached the block tip and hold the ground truth at every height, the block store must be unchanged; going to sleep with the filter tip below the block tip while block headers are current is a violation (nothing but a block that is not coming wakes it), as is a filter tip that has not moved after 4 getcfheaders answered in full; images with level tips are the control (must stay level); (6) let the REAL block manager be constructed on the reopened stores and commit one valid next header handed to its headers handler (tip advances by exactly that header), (7) accept appends that land at the right heights. " +
 		"FAMILY 2: seeded clean header imports (PoW-valid generated chains under 3 parameter presets; start height 0 / effective tip+1 / inside agreeing content; length 5-400; write batch size 1, 2, 7, a divisor, the length; stores pre-filled to block tip 0..120 with the block store ahead of the filter store by 0,1,2,3,5) run through the REAL chainimport import on the real stores with the same crash hooks; EVERY crash point announced during Import is taken; each image must pass (1)-(5) with 'before/after' = the states around the interrupted store call of the importer (so each store holds the pre-import content plus a prefix of the file ending at a durable-step boundary), hold above the prior content only the file's headers, let the block manager be constructed on the crash state, and then RE-RUNNING the same import on the recovered stores must succeed and yield exactly the complete final state, from which (6) and (7) must hold; one image in 4 (seeded) additionally gets (6)-(7) on a second copy of the crash state itself. " +
 		"START-UP FAMILY: the start-up itself is crashed on the complete client's real start-up path: neutrino.NewChainService (never started, no peers) runs on an EMPTY data directory with a database wrapper that announces a crash point before and after EVERY write transaction it is asked for, whoever makes it (filter database, header indexes, ban store; their number and order are recorded from the run, not assumed); every flat-file append seen between two such points additionally yields the torn-length images (1 byte / record-1 / ...); the completed start is a point too; the RESTART on each image is NewChainService again with the plain database, and the image must pass (1)-(7) with before = after = {genesis header, genesis filter header} read from the service's own stores, plus the public API: BestBlock = the highest block both chains reach, GetBlockHash(0) = genesis. Scenario 0 is fixed (regtest, defaults); the others draw chain (regtest, simnet, testnet3, mainnet, signet, testnet4), PersistToDisk and a filter-header assertion that agrees / is above the tip; SECOND GENERATION: the restart on a crash image (all images of scenario 0, seeded picks elsewhere) is itself crashed at every one of its own points; real SIGKILL in a child at every point of scenario 0 and two points of each other scenario. In family 1 every second image (and in family 2 the second look at the crash state) is also restarted through NewChainService instead of the two store constructors. " +
 		"distinct = (family, primitive / store-call kind @ composite / start @ state, crash-point class incl. the maker of the interrupted write transaction) plus one mark per import shape and start-up configuration; non-trivial = every image (each is a distinct on-disk state)")
@@ -131,6 +145,7 @@ func main() {
 	r.Assume("scripts obey the callers' contract: filter headers only for stored blocks; on rollback the filter store is rolled back before the block store")
 	r.Assume("import family: only imports that the importer accepts and completes without a crash are crashed (refusals and invalid files are C14's subject); a failed store write needs a fault, not a crash, and is C14's subject too")
 	r.Assume("start-up family: the store constructors open their flat files themselves, so a genesis append is observed as the growth of the file between two write-transaction boundaries (the torn images are that state with the file cut), and two file operations between the same two boundaries are not separated")
+	r.Assume("filter-sync resume step: the honest peer exists as the responder of the block manager's two network functions (all-peers query, batch dispatcher) and as the 'a peer is connected' signal; it is never handed over as a sync candidate, so 'block headers are current' is decided by the fixed clock (tip + 1 h); the handler's quiescent point is the client's own pause point before its wait for new block headers (verif build tag), attributed to a block manager by the goroutine that called that manager's clock / network functions; stores pre-filled with arbitrary filter headers (import family) are served relative to what is stored, and skipped (counted) where a checkpointed fetch would have to re-derive them")
 	r.Assume("block manager restart: a never-connected btcd peer stands in for the sender of the one header; the block manager's clock is a fixed instant derived from the chain (tip + 1 h for scripts, the generated chains' reference clock for imports), never the wall clock")
 
 	root := scratch()
@@ -414,15 +429,29 @@ func main() {
 		}
 		return nil
 	}
+	// Script jobs: the fixed scripts first (whatever the seed), the seeded long
+	// ones, then the seeded ones.
+	nLong, nLongOps := r.Pick(1, 16), r.Pick(6, 16)
+	var sjobs []sjob
+	for i := range c08.FixedScripts {
+		sjobs = append(sjobs, sjob{c08.ScriptFixed, c08.FixedScriptSeed0 + int64(i), 0, fmt.Sprintf("fixed-%d", i)})
+	}
+	for i := 0; i < nLong; i++ {
+		sjobs = append(sjobs, sjob{c08.ScriptLong, r.Seed*100003 + 50000 + int64(i), nLongOps, fmt.Sprintf("long-%d", i)})
+	}
+	for si := 0; si < nScripts; si++ {
+		sjobs = append(sjobs, sjob{c08.ScriptSeeded, r.Seed*100003 + int64(si), nOps, fmt.Sprint(si)})
+	}
 	jobs := make(chan int)
 	for w := 0; w < min(workers, 6); w++ {
 		wg.Add(1)
 		go func(w int) {
 			defer wg.Done()
 			for si := range jobs {
-				seed := r.Seed*100003 + int64(si)
-				dir := filepath.Join(root, fmt.Sprintf("c08-run-%d", si))
-				img := filepath.Join(root, fmt.Sprintf("c08-img-%d", si))
+				sj := sjobs[si]
+				seed, nOps := sj.seed, sj.nOps
+				dir := filepath.Join(root, "c08-run-"+sj.label)
+				img := filepath.Join(root, "c08-img-"+sj.label)
 				_ = os.RemoveAll(dir)
 				if err := c08.CopyDir(tmpl, dir); err != nil {
 					r.Inconclusive("copy template: " + err.Error())
@@ -433,7 +462,7 @@ func main() {
 					r.Inconclusive("open: " + err.Error())
 					continue
 				}
-				script := c08.GenScript(seed, nOps)
+				script := c08.ScriptFor(sj.kind, seed, nOps)
 				var recs []pointRec
 				var cur struct {
 					op     c08.Op
@@ -477,8 +506,11 @@ func main() {
 							r.Case(op.Kind+tag(op)+"|"+p.Class, true)
 							r.Count("crash_images_checked", 1)
 							r.Count("points_"+strings.SplitN(p.Class, "/", 2)[0], 1)
+							if sj.kind != c08.ScriptSeeded {
+								r.Count("crash_images_of_fixed_and_long_scripts", 1)
+							}
 							for _, fd := range fs {
-								r.Violation(fd.Sig, fd.What, map[string]any{"script_seed": seed, "ops": nOps, "op_index": i, "op": op.String(),
+								r.Violation(fd.Sig, fd.What, map[string]any{"script_kind": sj.kind, "script_label": sj.label, "script_seed": seed, "ops": nOps, "op_index": i, "op": op.String(),
 									"point": p.Name, "script": fmt.Sprint(script), "before_tips": [2]int{len(before.Blocks) - 1, len(before.Filters) - 1},
 									"after_tips": [2]int{len(after.Blocks) - 1, len(after.Filters) - 1}})
 							}
@@ -493,7 +525,10 @@ func main() {
 				pointsByScript[seed] = recs
 				mu.Unlock()
 				r.Count("scripts", 1)
-				if si < 3 {
+				if sj.kind != c08.ScriptSeeded {
+					r.Mark("script|" + sj.label[:strings.Index(sj.label, "-")])
+				}
+				if si < 3+len(c08.FixedScripts) {
 					r.Sample(map[string]any{"script_seed": seed, "script": fmt.Sprint(script), "crash_points": len(recs)})
 				}
 			}
@@ -502,7 +537,7 @@ func main() {
 	wg.Add(1)
 	go func() {
 		defer wg.Done()
-		for si := 0; si < nScripts; si++ {
+		for si := range sjobs {
 			jobs <- si
 		}
 		close(jobs)
@@ -661,23 +696,38 @@ func main() {
 	// kills itself at point k; the parent opens what is left.
 	exe, _ := os.Executable()
 	type kcase struct {
-		seed int64
-		k    int
+		sj sjob
+		k  int
 	}
 	var kcases []kcase
 	kseen := map[kcase]bool{}
 	krng := rand.New(rand.NewSource(r.Seed ^ 0x6b696c6c))
-	var seeds []int64
-	for si := 0; si < nScripts; si++ {
-		seeds = append(seeds, r.Seed*100003+int64(si))
+	var seeds []sjob // the seeded scripts
+	for _, sj := range sjobs {
+		if sj.kind == c08.ScriptSeeded {
+			seeds = append(seeds, sj)
+		}
 	}
 	for i := 0; i < nKill; i++ {
 		s := seeds[krng.Intn(len(seeds))]
-		if n := len(pointsByScript[s]); n > 0 {
+		if n := len(pointsByScript[s.seed]); n > 0 {
 			// (duplicates would share a directory name: drop them)
 			if kc := (kcase{s, krng.Intn(n)}); !kseen[kc] {
 				kseen[kc] = true
 				kcases = append(kcases, kc)
+			}
+		}
+	}
+	// Two points of each fixed script and of each long script (their own PRNG:
+	// the seeded picks above stay what they were).
+	krng2 := rand.New(rand.NewSource(r.Seed ^ 0x6b696c6d))
+	for _, sj := range sjobs {
+		if n := len(pointsByScript[sj.seed]); sj.kind != c08.ScriptSeeded && n > 0 {
+			for j := 0; j < 2; j++ {
+				if kc := (kcase{sj, krng2.Intn(n)}); !kseen[kc] {
+					kseen[kc] = true
+					kcases = append(kcases, kc)
+				}
 			}
 		}
 	}
@@ -688,14 +738,14 @@ func main() {
 			defer wg.Done()
 			rng := rand.New(rand.NewSource(int64(w) + 77))
 			for kc := range kjobs {
-				dir := filepath.Join(root, fmt.Sprintf("c08-kill-%d-%d", kc.seed, kc.k))
+				dir := filepath.Join(root, fmt.Sprintf("c08-kill-%d-%d", kc.sj.seed, kc.k))
 				_ = os.RemoveAll(dir)
 				if err := c08.CopyDir(tmpl, dir); err != nil {
 					r.Inconclusive("copy template")
 					continue
 				}
-				cmd := exec.Command(exe, "-tier", r.Tier, "-seed", fmt.Sprint(r.Seed), "-child-script", fmt.Sprint(kc.seed),
-					"-child-ops", fmt.Sprint(nOps), "-child-kill", fmt.Sprint(kc.k), "-child-dir", dir)
+				cmd := exec.Command(exe, "-tier", r.Tier, "-seed", fmt.Sprint(r.Seed), "-child-script", fmt.Sprint(kc.sj.seed),
+					"-child-kind", fmt.Sprint(kc.sj.kind), "-child-ops", fmt.Sprint(kc.sj.nOps), "-child-kill", fmt.Sprint(kc.k), "-child-dir", dir)
 				var errb bytes.Buffer
 				cmd.Stderr = &errb
 				err := cmd.Run()
@@ -706,7 +756,7 @@ func main() {
 					_ = os.RemoveAll(dir)
 					continue
 				}
-				rec := pointsByScript[kc.seed][kc.k]
+				rec := pointsByScript[kc.sj.seed][kc.k]
 				fs, inc := (&c08.ImageCheck{Dir: dir, Params: params(), Before: rec.before, After: rec.after, Rng: rng,
 					Sig: c08.ScriptSig(rec.op, rec.pt), Ctx: c08.ScriptCtx(rec.op, rec.pt), BM: bmOpts, Stats: bmStats, Service: scriptRestart(int64(kc.k))}).Run()
 				if inc != "" {
@@ -715,7 +765,7 @@ func main() {
 				r.Case("sigkill|"+rec.op.Kind+tag(rec.op)+"|"+rec.pt.Class, true)
 				r.Count("sigkill_cases", 1)
 				for _, fd := range fs {
-					r.Violation(fd.Sig, "[real SIGKILL] "+fd.What, map[string]any{"script_seed": kc.seed, "kill_point": kc.k, "op": rec.op.String(), "point": rec.pt.Name})
+					r.Violation(fd.Sig, "[real SIGKILL] "+fd.What, map[string]any{"script_kind": kc.sj.kind, "script_label": kc.sj.label, "script_seed": kc.sj.seed, "kill_point": kc.k, "op": rec.op.String(), "point": rec.pt.Name})
 				}
 				_ = os.RemoveAll(dir)
 			}
@@ -877,7 +927,7 @@ func main() {
 				defer wg.Done()
 				rng := rand.New(rand.NewSource(int64(w) + 991))
 				for ri := range rjobs {
-					seed := seeds[ri%len(seeds)]
+					seed := seeds[ri%len(seeds)].seed
 					dir := filepath.Join(root, fmt.Sprintf("c08-rnd-%d", ri))
 					_ = os.RemoveAll(dir)
 					if err := c08.CopyDir(tmpl, dir); err != nil {
@@ -939,6 +989,7 @@ func main() {
 		close(rjobs)
 		wg.Wait()
 	}
+	c08.WaitPending() // background stop-and-close of the started block managers (their counters)
 	r.Set("import_check_worker_seconds", map[string]float64{"total": float64(ist.TTotal) / 1e9, "of_which_reimport": float64(ist.TReimport) / 1e9,
 		"of_which_crash_state_block_manager_sample": float64(ist.TSecond) / 1e9})
 	r.Count("import_reimports", ist.Reimports)
@@ -951,6 +1002,14 @@ func main() {
 		r.Count("bm_tip_advanced", t)
 		r.Count("bm_import_crash_state_restarts", ist.CrashStateBM)
 		r.Count("restarts_through_NewChainService", bmStats.Services())
+		cs, ms := bmStats.Counters()
+		for k, v := range cs {
+			r.Count(k, v)
+		}
+		for k := range ms {
+			r.Mark(k)
+		}
+		r.Set("resume_shapes_seen", ms)
 		r.Set("bm_sample_one_in", map[string]int{"script_images_one_header_restart": 1, "import_images_construct_on_crash_state": 1,
 			"import_images_one_header_restart_after_reimport": 1, "import_images_one_header_restart_on_crash_state": bmCrashStateOneIn})
 	}
